@@ -79,7 +79,8 @@ TNext ==
           ELSE /\ UNCHANGED <<nodes, root>>
                \* a failed set_mathml keeps the old expression but has already reset navigation: the marker clause is
                \* only asserted between two set_mathml calls
-               /\ marks' = IF e.k = "set" THEN NoMarks
+               \* (a key press may set any marker: the driver does not interpret key codes, so markers are unknown afterwards)
+               /\ marks' = IF e.k = "set" \/ (e.k = "cmd" /\ e.cls = "Key") THEN NoMarks
                            ELSE IF e.k = "cmd" /\ e.cls = "SetPlacemarker" /\ e.res = "ok"
                            THEN [marks EXCEPT ![e.idx] = e.after]
                            \* a SetPlacemarker that reports an error may or may not have set the marker: not judged afterwards
